@@ -44,7 +44,7 @@ contract Explore.Get
 contract Explore.exploreOnce
   requires e != nil && t != nil && t.rt != nil && t.target != nil && e.scrapeManager != nil && e.explore != nil && wfWindow(t.rt) && wfStatus(t.rt)
   ensures[C20,C04] @estimate_stays_well_formed wfStatus(t.rt) && wfWindow(t.rt)
-  requires forall j, inf in e.scrapeManager.jobs :: inf != nil ==> inf.Config != nil
+  requires wfJobs(e.scrapeManager)
   ensures[C20] @failed_probe_is_not_reported_good err != nil ==> t.rt.Health != "up"
   ensures[C20] @successful_probe_is_reported_good err == nil ==> t.rt.Health == "up"
   ensures[C20] @estimate_is_the_successful_probe err == nil ==> (t.target.Series == toint(gLastProbe.ScrapedTotal) && t.target.TotalSeries == toint(gLastProbe.Total)
